@@ -679,8 +679,27 @@ impl<'a, 'ast> Visit<'ast> for Rewriter<'a> {
         if matches!(c.output, ReturnType::Default) {
             let whole = self.r(c.span());
             let src = norm(self.sf.slice(whole));
-            if let Some((_, hdr)) = self.cfg.closure_sig.iter().find(|(k, _)| *k == src) {
+            if let Some((_, hdr0)) = self.cfg.closure_sig.iter().find(|(k, _)| *k == src) {
                 let br = self.r(c.body.span());
+                // R-closurepat: `HEADER @@ let PATTERN = NAME;` -- a pattern parameter (outside Verus' dialect) becomes the named
+                // parameter of HEADER, destructured by a `let` with the SAME pattern at the start of the body
+                let (hdr, pre) = match hdr0.split_once("@@") {
+                    Some((h, p)) => (h.trim().to_string(), format!("{} ", p.trim())),
+                    None => (hdr0.clone(), String::new()),
+                };
+                let hdr = &hdr;
+                if !pre.is_empty() {
+                    if !hdr.contains(" ensures ") {
+                        self.unsupported.push("closure_sig with a `@@ let` prefix needs its own ensures".into());
+                    }
+                    self.edits.replace(
+                        whole,
+                        vec![Piece::Lit(format!("{} {{ {}", hdr, pre)), Piece::Src(br.0, br.1), Piece::Lit(" }".into())],
+                        "R-closurepat",
+                    );
+                    self.note("R-closurepat", c.span());
+                    return;
+                }
                 if self.macro_depth > 0 {
                     // R-hoist: inside a macro invocation the annotated closure syntax is not an expression rustc's macro
                     // parser accepts; bind the closure to a fresh name immediately before the enclosing statement
